@@ -367,4 +367,29 @@ def exchange (o : ReqOpts) (mode : Mode) (segs : List Bytes) (closed : Bool) : E
             { outcome := .bodyErr h.status .timeout, released := false, reachedEnd := false, keepAlive := ka,
               discarded := r.discarded, unread := r.unread }
 
+
+/-- `send_request` with `Expect: 100-continue` and a non-empty body (h1proto.rs l.100-150): the
+request head is sent, one response head is read; if it is `100 Continue` the body is sent and a
+SECOND head is read by the same `ClientCodec`; any other status is the final response and the
+body is never sent. The codec state that survives the interim head is its connection type
+(`ClientCodec::decode` l.139-148); `Flags::BODILESS_STATUS` is (re)set from every head decoded, so
+it is that of the final head. Without `expect` this is `exchange`. -/
+def exchangeX (o : ReqOpts) (expect : Bool) (mode : Mode) (segs : List Bytes) (closed : Bool) : Exchange :=
+  if expect then
+    match headPhase [] segs with
+    | (.ok h b, _, rest) =>
+      if h.status = 100 then
+        match responseFraming h with
+        | none => failed .parseHeader b rest
+        | some f =>
+          match f.ptype with
+          | .none =>
+            -- connection type after the interim head; then the final response on the same buffer
+            let o' : ReqOpts := if codecKeepAlive o h f then o else { o with forceClose := true }
+            exchange o' mode (b :: rest) closed
+          | _ => failed .parseOther b rest   -- an interim head announcing a payload: not modelled
+      else exchange o mode segs closed
+    | _ => exchange o mode segs closed
+  else exchange o mode segs closed
+
 end ActixModel.Client
